@@ -126,6 +126,16 @@ func strEnc(v reflect.Value) bool {
 	return v.Kind() == reflect.String && !strings.ContainsAny(v.String(), "&=")
 }
 
+func viaCarrierFn(k carrier.Kind) func(reflect.Value, string) error {
+	return func(v reflect.Value, rules string) error {
+		s, isNil := carrier.Validate(k, v, rules)
+		if isNil {
+			return nil
+		}
+		return fmt.Errorf("%s", s)
+	}
+}
+
 func carriers() []carrierFn {
 	viaCarrier := func(k carrier.Kind) func(reflect.Value, string) error {
 		return func(v reflect.Value, rules string) error {
@@ -228,6 +238,23 @@ func run(c *runner.Ctx) {
 		return valid.Struct(p.Interface())
 	}})
 
+	// every public spelling of each entry point (function forms, deprecated aliases, validator objects, forms that take
+	// functions and get none or one under an unused name, pointer to the source) must give the same result
+	cars = append(cars, carrierFn{string(carrier.StructWrappers), anyV, func(v reflect.Value, rl string) error {
+		if !carrier.TagOK(rl) {
+			return tagRun(v, rl)
+		}
+		s, isNil := carrier.Validate(carrier.StructWrappers, v, rl)
+		if isNil {
+			return nil
+		}
+		return fmt.Errorf("%s", s)
+	}})
+	cars = append(cars,
+		carrierFn{string(carrier.VarWrappers), anyV, viaCarrierFn(carrier.VarWrappers)},
+		carrierFn{string(carrier.MapWrappers), anyV, viaCarrierFn(carrier.MapWrappers)},
+		carrierFn{string(carrier.UrlWrappers), strEnc, viaCarrierFn(carrier.UrlWrappers)},
+	)
 	// Var right after a Var call that was rejected before validation (unsupported source, other rules)
 	cars = append(cars, carrierFn{"var-after-rejected-var", anyV, func(v reflect.Value, rl string) error {
 		_ = valid.Var(map[string]int{"a": 1}, "phone|zz", "le=-9|zz")
